@@ -614,12 +614,18 @@ func (pr *ProtoArray) OnPrune(ctx context.Context, anchorRoot Root, anchorSlot S
 		}
 		prunedUpTo++
 	}
-	// adjust the slot we know for the anchor root, everything before it was pruned.
-	pr.blockSlots[anchorRoot] = anchorSlot
 	for _, p := range pruned[:prunedUpTo] {
-		delete(pr.indices, p.node.Ref)
-		// Remove the block-slots ref
-		delete(pr.blockSlots, p.node.Ref.Root)
+		ref := p.node.Ref
+		delete(pr.indices, ref)
+		// The lowest slot we know for the root moves on to its next node (the anchor root ends at the anchor slot),
+		// or the root is forgotten with its last node.
+		if pr.blockSlots[ref.Root] == ref.Slot {
+			if _, ok := pr.indices[NodeRef{Root: ref.Root, Slot: ref.Slot + 1}]; ok {
+				pr.blockSlots[ref.Root] = ref.Slot + 1
+			} else {
+				delete(pr.blockSlots, ref.Root)
+			}
+		}
 		// TODO: is this slicing bad for GC?
 		pr.nodes = pr.nodes[1:]
 		// update offset
